@@ -19,7 +19,7 @@ from refjose.prim import b64u_dec, b64u_enc, i2osp
 
 LEVEL = "exploration"
 RULE = ("cases = (algorithm, operation, path, key) with key = kind (oct 8..512 bit, RSA 1024/2048, EC x4, OKP x4) x use {absent, sig, enc} x "
-        "key_ops {absent, each single operation, complementary set} x {private, public}: all keys of the matching type plus sampled keys of "
+        "key_ops {absent, empty list, each single operation, complementary set} x {private, public}: all keys of the matching type plus sampled keys of "
         "other types; consume-side cases present the unsuitable key to a token that is valid under its unrestricted twin (refjose-built), "
         "incl. ECDSA tokens signed on another curve than the algorithm names; HS* forged with every public encoding of an asymmetric key; "
         "PEM/SSH text imported as oct secret under warnings.catch_warnings. Non-trivial: the call was executed and judged; distinct by case.")
@@ -123,7 +123,7 @@ def suitable(alg, op, kd, enc=None):
 def variants(kind, rng, full):
     """(use, key_ops, private) combinations"""
     uses = [None, "sig", "enc"]
-    opsets = [None] + [[o] for o in ALL_OPS] + [["sign", "verify"], ["encrypt", "decrypt", "wrapKey", "unwrapKey", "deriveKey"], ["verify"], ["sign", "decrypt"]]
+    opsets = [None, []] + [[o] for o in ALL_OPS] + [["sign", "verify"], ["encrypt", "decrypt", "wrapKey", "unwrapKey", "deriveKey"], ["verify"], ["sign", "decrypt"]]
     out = []
     for use in uses:
         for ops in opsets:
@@ -143,8 +143,8 @@ def import_variant(jwk, use, ops, private):
     d = dict(jwk if private or jwk["kty"] == "oct" else gen.public_jwk(jwk))
     if use:
         d["use"] = use
-    if ops:
-        d["key_ops"] = list(ops)
+    if ops is not None:
+        d["key_ops"] = list(ops)   # [] declares that no operation is permitted
     return j.key(d)
 
 
